@@ -218,6 +218,52 @@ def run(prop, tier, seed):
                 viol.append((f"expression ({hname}, {mode} numpy leaves): the same Operation gave different results on identical fresh states", desc))
             elif np.abs(res[0] - fresh).max() > 1e-9:
                 viol.append((f"expression ({hname}, {mode} numpy leaves): a reused Operation does not act like a freshly constructed one", desc))
+    # the dimension chosen for an operation is a function of (type, parameters, state): it must not depend on
+    # which other states the same kind of operation met before (checked against a fresh process that only
+    # ever sees the second state)
+    import subprocess, sys as _sys, json as _json
+    CHILD = (
+        "import json,sys,numpy as np,jax.numpy as jnp\n"
+        "import photon_weave._math.ops\n"
+        "from photon_weave.operation import Operation, FockOperationType as FO\n"
+        "spec=json.loads(sys.argv[1])\n"
+        "out=[]\n"
+        "for kind,par,N in spec:\n"
+        "    v=np.zeros((N,1),complex); v[N-1,0]=1\n"
+        "    op=Operation(FO.Displace,alpha=complex(*par)) if kind=='Displace' else Operation(FO.Squeeze,zeta=complex(*par))\n"
+        "    op.compute_dimensions(N-1,jnp.array(v)); out.append(int(op.dimensions[0]))\n"
+        "print(json.dumps(out))\n")
+    est_cases = [("Displace", (-1.5, 0.0), 15), ("Displace", (0.0, 1.2), 12), ("Squeeze", (0.4, 0.0), 9)]
+    try:
+        import os as _os
+        r_ = subprocess.run(["/venv/bin/python", "-c", CHILD, _json.dumps(est_cases)], stdout=subprocess.PIPE, stderr=subprocess.DEVNULL, text=True, timeout=600,
+                            env=dict(_os.environ, JAX_PLATFORMS="cpu"))
+        ref_dims = _json.loads(r_.stdout.strip().splitlines()[-1])
+    except Exception as ex:
+        ref_dims = None
+        viol.append((f"reference process for dimension estimates failed: {type(ex).__name__}: {ex}", {"case": "estimates"}))
+    if ref_dims is not None:
+        for (kind, par, N), ref in zip(est_cases, ref_dims):
+            n += 1
+            kinds.add("estimate-history:" + kind)
+            z = complex(*par)
+            mk = (lambda: Operation(FO.Displace, alpha=z)) if kind == "Displace" else (lambda: Operation(FO.Squeeze, zeta=z))
+            # first a state with the same highest level and shape that needs (almost) no extra room:
+            # the coherent / squeezed state that this very operation maps back towards the vacuum
+            inv = (lambda: Operation(FO.Displace, alpha=-z)) if kind == "Displace" else (lambda: Operation(FO.Squeeze, zeta=-z))
+            vac = jnp.zeros((N, 1), dtype=complex).at[0, 0].set(1.0)
+            o0 = inv()
+            o0.dimensions = [N]
+            s1 = np.asarray(o0.operator) @ np.asarray(vac)
+            s1 = s1 / np.linalg.norm(s1)
+            o1 = mk()
+            o1.compute_dimensions(N - 1, jnp.array(s1))
+            num = np.zeros((N, 1), complex); num[N - 1, 0] = 1
+            o2 = mk()
+            o2.compute_dimensions(N - 1, jnp.array(num))
+            got = int(o2.dimensions[0])
+            if got != ref:
+                viol.append((f"{kind}({z}) on the number state |{N - 1}> (dimension {N}): estimated dimension {got} after the same operation met another state of that shape, {ref} in a fresh process", {"case": "estimate-history", "kind": kind, "N": N}))
     # operand-type crosstalk between two Expression operations
     n += 1
     kinds.add("expression-types")
